@@ -384,6 +384,62 @@ type setterProbe struct {
 	S string
 }
 
+// ---- syntax-only consumers that are used more than once: a destination that already holds members
+
+func reusedDestinations(c *explore.Ctx) {
+	docs := []string{`{"a":1}`, `{"b":[2,{"x":null}]}`, `{,"c":3}`, `{}`, `{"a":1,}`, `{"a":1 "b":2}`, `{"d":{"e":"f"},"a":0}`, ` { "a" : tru } `, `{"a":01}`, `null`}
+	first := docs[c.Choose(len(docs))]
+	second := docs[c.Choose(len(docs))]
+	third := docs[c.Choose(len(docs))]
+	targets := []struct {
+		name string
+		mk   func() any
+	}{
+		{"map[string]RawMessage", func() any { return new(map[string]json.RawMessage) }},
+		{"map[string]any", func() any { return new(map[string]any) }},
+		{"struct with RawMessage and skipped members", func() any {
+			return new(struct {
+				A json.RawMessage `json:"a"`
+			})
+		}},
+		{"RawMessage", func() any { return new(json.RawMessage) }},
+		{"[]RawMessage via wrapping", func() any { return new(map[string][]json.RawMessage) }},
+	}
+	for _, tg := range targets {
+		x := tg.mk()
+		hist := ""
+		for _, d := range []string{first, second, third} {
+			doc := d
+			if tg.name == "[]RawMessage via wrapping" {
+				doc = `{"k":[` + d + `]}`
+			}
+			want := stdjson.Valid([]byte(doc))
+			var err error
+			if pv, ps := explore.Catch(func() { err = json.Unmarshal([]byte(doc), x) }); pv != nil {
+				c.Fail("reused-destination:panic:"+ps, "Unmarshal(%s) into a used %s panics after %s: %v", doc, tg.name, hist, pv)
+				break
+			}
+			// all of these targets take any valid document of their shape: acceptance is a matter of syntax
+			// (a valid document that is not an object is a type error for the map and struct targets)
+			isObj := len(strings.TrimSpace(doc)) > 0 && (strings.TrimSpace(doc)[0] == '{' || strings.TrimSpace(doc) == "null")
+			if tg.name == "RawMessage" {
+				isObj = true
+			}
+			if want && isObj && err != nil {
+				c.Fail("reused-destination:rejects-valid:"+tg.name, "after %s, Unmarshal(%s) into the same %s fails: %v", hist, doc, tg.name, err)
+			} else if !want && err == nil {
+				c.Fail("reused-destination:accepts-invalid:"+tg.name, "after %s, Unmarshal(%s) into the same %s succeeds", hist, doc, tg.name)
+			}
+			hist += doc + "; "
+		}
+	}
+	c.NontrivialStr("reused", first, second, third)
+	c.Outcome("reused")
+	if c.WantSample() || c.Failed() {
+		c.Case(map[string]any{"documents": []string{first, second, third}, "targets": len(targets)})
+	}
+}
+
 func encoderSetters(c *explore.Ctx) {
 	n := c.Choose(4)                                       // 0..3 setter calls
 	esc, sorted, trust, newline := true, true, false, true // what NewEncoder starts with
@@ -739,6 +795,7 @@ func Spec() *explore.Spec {
 			{Name: "byte-strings", ShardDepth: 3, Body: byteStrings, Doc: "all byte strings up to length 6 (quick) / 7 (thorough) over a 27-byte class alphabet; every syntax-only consumer on all strings up to length 4 / 5"},
 			{Name: "token-strings", ShardDepth: 3, Body: tokenStrings, Doc: "all token sequences up to 6 / 8 over 16 tokens; consumers up to 4 / 5"},
 			{Name: "byte-sweep", ShardDepth: 2, Body: byteSweep, Doc: "21 small documents and streams with white space in every kind of gap: every byte value 0..255 substituted at, and inserted before, every position (and appended); Valid and every syntax-only consumer compared with encoding/json on each"},
+			{Name: "reused-destinations", ShardDepth: 2, Body: reusedDestinations, Doc: "every sequence of 3 of 10 documents (valid objects, a leading comma, a trailing comma, a missing comma, a bad literal, a leading zero, null) decoded one after the other into the same destination of 5 kinds whose members are only checked for syntax (map[string]RawMessage, map[string]any, a struct with a RawMessage and skipped members, RawMessage, lists of RawMessage): accepted exactly when Valid accepts, whatever the destination already holds"},
 			{Name: "encoder-setters", ShardDepth: 2, Body: encoderSetters, Doc: "every history of 0-3 calls of the Encoder setters (EscapeHTML, SortMapKeys, TrustRawMessage, AppendNewline x on/off) followed by 6 probes on the same Encoder (valid, malformed, trailing-garbage and empty RawMessage values, then two valid values again): error presence and bytes equal Append with the flags the last call of each setter selects - an invalid RawMessage is rejected unless trust is on"},
 			{Name: "string-sweep", ShardDepth: 2, Body: stringSweep, Doc: "string body length 0..40/72 x every position x all 256 byte values x 5 input-wide contexts; escapes at every position"},
 			{Name: "unicode-escapes", ShardDepth: 2, Body: unicodeEscapes, Doc: "\\uXXXX with every pair of hex-digit classes at every digit position, at every offset 0..18"},
